@@ -541,7 +541,11 @@ def construct(mod, P, pv, how='kw', reuse=None):
             else:
                 setattr(obj, k, conv(v))
         return obj
+    nodes = dict(P['fields'])
     for k, v in pv.vals.items():
+        d = nodes.get(k, {}).get('desc') if how == 'auto' else None
+        if d and d['k'] == 'autolength' and v == len(pv.vals[d['of']]):
+            continue            # 'auto': a described field whose value is what the computation yields is left to the computation
         setattr(obj, k, conv(v))
     return obj
 
